@@ -19,6 +19,9 @@ let streams : (string * stream) list = [
   ("C09", { gen = C09.gen; check = C09.check; search = C09.search; describe = C09.describe; tags = C09.tags; strict = false });
   ("C10", { gen = C10.gen; check = C10.check; search = C10.search; describe = C10.describe; tags = C10.tags; strict = false });
   ("C11", { gen = C11.gen; check = C11.check; search = C11.search; describe = C11.describe; tags = (fun _ _ -> []); strict = false });
+  ("C03", { gen = C03.gen_for "C03"; check = C03.check_c03; search = C03.search; describe = C03.describe; tags = Evalcommon.tags; strict = false });
+  ("C04", { gen = C03.gen_for "C04"; check = C03.check_c04; search = C03.search; describe = C03.describe; tags = Evalcommon.tags; strict = false });
+  ("C05", { gen = C03.gen_for "C05"; check = C03.check_c05; search = C03.search; describe = C03.describe; tags = Evalcommon.tags; strict = false });
   ("C01", { gen = C01.gen; check = C01.check; search = C01.search; describe = C01.describe; tags = Evalcommon.tags; strict = false });
   ("C02", { gen = C02.gen; check = C02.check; search = C02.search; describe = C02.describe; tags = Evalcommon.tags; strict = false });
 ]
